@@ -391,6 +391,13 @@ func observe(idx bleve.Index, r Req, width int, fs []int) (*Observed, error) {
 	if err != nil {
 		return nil, err
 	}
+	// a request object may be reused (here: searched twice); the second answer
+	// is the one that is judged - the per-member copies an alias makes of a used
+	// request once shared the sort's scratch buffers (fixed in /repo 91a8e47)
+	res, err = idx.Search(req)
+	if err != nil {
+		return nil, err
+	}
 	if res.Status != nil && (res.Status.Failed > 0 || len(res.Status.Errors) > 0) {
 		return nil, fmt.Errorf("search status reports failures: %+v", res.Status)
 	}
